@@ -108,7 +108,7 @@ def in_envelope(widget, v, s):
     if widget == 'D15_input':
         return s.D50 * 1000 / v <= 6.0 and v < s.D50 * 1000 / 1.02
     if widget == 'D50_input':
-        return v / (s.get_dx(0.15) * 1000) <= 6.0 and s.get_dx(0.85) * 1000 / v <= 6.0 and v >= 0.05
+        return v >= 0.05      # D15 and D85 follow a D50 entry in proportion: the ratios, hence the shape, stay as they are
     if widget == 'D85_input':
         return v / (s.D50 * 1000) <= 6.0 and v > s.D50 * 1000 * 1.02
     return True
@@ -129,6 +129,10 @@ def check_state(ctx, main, label, log):
     # bounds
     if not (0.025 <= s.Dp <= 1.5 and 0.01 <= s.Cv <= 0.5 and 1.5 <= s.rhos <= 7.0):
         return f'parameter outside the documented widget bounds: Dp={s.Dp}, Cv={s.Cv}, rhos={s.rhos}', 'bounds'
+    d15, d50, d85 = s.get_dx(0.15) * 1000, s.D50 * 1000, s.get_dx(0.85) * 1000
+    if not (0.04 - 5e-4 <= d15 <= d50 and d50 <= d85 <= s.Dp * 1000 * 0.50 + 5e-4 and d50 <= s.Dp * 1000 * 0.25 + 5e-4):
+        return (f'grading outside the bounds its boxes document (0.04 <= D15 <= D50 <= 0.25 Dp, D50 <= D85 <= 0.5 Dp; display precision): '
+                f'D15={d15:0.4f}, D50={d50:0.4f}, D85={d85:0.4f} mm, Dp={s.Dp * 1000:0.0f} mm'), 'grading-bounds'
     # echo
     want = {'Dp_input': f'{int(s.Dp * 1000)}', 'Cv_input': f'{s.Cv:0.3f}', 'rhos_input': f'{s.rhos:0.3f}', 'rhom_input': f'{s.rhom:0.3f}',
             'D15_input': f'{s.get_dx(0.15) * 1000:0.3f}', 'D50_input': f'{s.get_dx(0.5) * 1000:0.3f}', 'D85_input': f'{s.get_dx(0.85) * 1000:0.3f}',
@@ -308,6 +312,15 @@ def monitor(ctx, extended=False):
         other = [x for x in names if x != nm][:1]
         scripts.append(['fluid=fresh', f'pipeline={nm!r}', "Cv='0.2'", 'fluid=salt'] + [f'pipeline={x!r}' for x in other] + ['fluid=fresh', f'pipeline={nm!r}'])
         scripts.append(['units=US', "rhos='3.1'", f'pipeline={nm!r}', 'D50_up_button', 'units=SI'] + [f'pipeline={x!r}' for x in other])
+    # grading pushed towards the limits of its boxes by D50 entries (D15 and D85 follow D50 in proportion): D15 must stay >= 0.04 mm, D85 <= Dp / 2
+    for raw in ([('D15_input', '0.170'), ('D50_input', '0.200'), ('D50_input', '0.190')],
+                [('D50_input', '2.700'), ('D50_input', '7.300'), ('D50_input', '19.800'), ('D50_input', '53.800'), ('D50_input', '124.000')]):
+        main = new_session()
+        log = []
+        for w, txt in raw:
+            if not step(ctx, main, (f"{w.split('_')[0]}={txt!r}", 'text', (w, txt)), log):
+                break
+            k += 1
     for sc in scripts:
         main = new_session()
         log = []
